@@ -124,6 +124,7 @@ func checkC04(c *oracleCtx, su parseSetup, src string) {
 		}
 		counts := map[string]int{}
 		stmtEvents := map[string]int{} // position -> number of complete observer rounds
+		exprEvents := map[string]int{}
 		stmtType := map[string]int{}
 		for _, run := range splitRuns(with.trace) {
 			want := su.stmtI
@@ -145,6 +146,8 @@ func checkC04(c *oracleCtx, su parseSetup, src string) {
 				k := fmt.Sprintf("%d:%d", run[0].line, run[0].co)
 				stmtEvents[k] += len(run) / len(want)
 				stmtType[k] = run[0].typ
+			} else {
+				exprEvents[fmt.Sprintf("%d:%d", run[0].line, run[0].co)] += len(run) / len(want)
 			}
 		}
 		for gi, ids := range [][]int{su.stmtI, effExpr} {
@@ -188,6 +191,30 @@ func checkC04(c *oracleCtx, su parseSetup, src string) {
 				return
 			}
 		}
+		// every expression parse step is announced: one round of the observers per expression slot of the tree (operand of a
+		// prefix or binary operator, argument, element, key, value, property, index, condition, parenthesised expression,
+		// initialiser, expression statement), on the slot's first token. Error-free parses with observers only.
+		onlyObservers := len(su.exprI) > 0
+		for _, spec := range su.exprI {
+			if spec[0] != 'o' {
+				onlyObservers = false
+			}
+		}
+		if onlyObservers && len(with.errs) == 0 {
+			slots := exprSlots(with.prog)
+			for k, n := range slots {
+				if exprEvents[k] != n {
+					c.violation("expression-step-unannounced", fmt.Sprintf("%d expression(s) of the tree start at %s as an operand / argument / property / …, the observers were run %d time(s) there", n, k, exprEvents[k]), input)
+					return
+				}
+			}
+			for k, n := range exprEvents {
+				if slots[k] == 0 {
+					c.violation("expression-step-unannounced", fmt.Sprintf("the observers were run %d time(s) at %s where no expression slot of the tree starts", n, k), input)
+					return
+				}
+			}
+		}
 		// (c) token observers
 		if su.tokI > 0 {
 			if msg := checkTokTrace(su, src, with.tokTrace); msg != "" {
@@ -196,6 +223,106 @@ func checkC04(c *oracleCtx, su parseSetup, src string) {
 			}
 		}
 	})
+}
+
+// exprSlots counts, per start position, the expression slots of the tree: the places where the grammar asks for an
+// expression (everything but the left operand of a binary / postfix / call / member / assignment node, which the
+// operator loop hands over). Written from the grammar, not from the parser.
+func exprSlots(p *ast.Program) map[string]int {
+	m := map[string]int{}
+	var expr func(e ast.Expression, slot bool)
+	var stmt func(s ast.Statement)
+	expr = func(e ast.Expression, slot bool) {
+		if isNilB(e) {
+			return
+		}
+		if slot {
+			if t, ok := leftmostTok(e); ok {
+				m[posKey(t.Start)]++
+			}
+		}
+		switch n := e.(type) {
+		case *ast.BinaryExpression:
+			expr(n.Left, false)
+			expr(n.Right, true)
+		case *ast.UnaryExpression:
+			expr(n.Right, true)
+		case *ast.PostfixExpression:
+			expr(n.Left, false)
+		case *ast.GroupedExpression:
+			expr(n.Expression, true)
+		case *ast.CallExpression:
+			expr(n.Function, false)
+			for _, a := range n.Arguments {
+				expr(a, true)
+			}
+		case *ast.MemberExpression:
+			expr(n.Object, false)
+			expr(n.Property, true)
+		case *ast.AssignmentExpression:
+			expr(n.Left, false)
+			expr(n.Value, true)
+		case *ast.CompoundAssignmentExpression:
+			expr(n.Left, false)
+			expr(n.Value, true)
+		case *ast.LetExpression:
+			expr(n.Value, true)
+		case *ast.FunctionExpression:
+			if n.Body != nil {
+				stmt(n.Body)
+			}
+		case *ast.ArrayLiteral:
+			for _, x := range n.Elements {
+				expr(x, true)
+			}
+		case *ast.ObjectLiteral:
+			for _, pr := range n.Properties {
+				expr(pr.Key, true)
+				expr(pr.Value, true)
+			}
+		}
+	}
+	stmt = func(s ast.Statement) {
+		if isNilB(s) {
+			return
+		}
+		switch n := s.(type) {
+		case *ast.ExpressionStatement:
+			expr(n.Expression, true)
+		case *ast.LetStatement:
+			expr(n.Value, true)
+		case *ast.ReturnStatement:
+			expr(n.ReturnValue, true)
+		case *ast.FunctionDeclaration:
+			if n.Body != nil {
+				stmt(n.Body)
+			}
+		case *ast.BlockStatement:
+			for _, x := range n.Statements {
+				stmt(x)
+			}
+		case *ast.IfStatement:
+			expr(n.Condition, true)
+			stmt(n.ThenBranch)
+			stmt(n.ElseBranch)
+		case *ast.WhileStatement:
+			expr(n.Condition, true)
+			stmt(n.Body)
+		case *ast.ForStatement:
+			if _, isLet := n.Init.(*ast.LetExpression); isLet {
+				expr(n.Init, false) // `let` in a for head is read by the statement, its value is the slot
+			} else {
+				expr(n.Init, true)
+			}
+			expr(n.Condition, true)
+			expr(n.Update, true)
+			stmt(n.Body)
+		}
+	}
+	for _, s := range p.Statements {
+		stmt(s)
+	}
+	return m
 }
 
 func containsInt(l []int, x int) bool {
